@@ -152,10 +152,15 @@ func (s *SpyClock) SawVerifyCertificate() bool {
 type SpyStore struct {
 	Roots []*x509.Certificate
 	Calls atomic.Int64
+	// Fail makes Certificates return an error (a store backed by a metadata URL or a database that is down).
+	Fail atomic.Bool
 }
 
 func (s *SpyStore) Certificates() ([]*x509.Certificate, error) {
 	s.Calls.Add(1)
+	if s.Fail.Load() {
+		return nil, errors.New("verif: certificate store unavailable")
+	}
 	return s.Roots, nil
 }
 
